@@ -1,5 +1,6 @@
 // C07 driver: igris_*toa / igris_ato*, compat itoa family, debug printers.
 #include "common/vlog.h"
+#include "common/sstep.h"
 #include <igris/util/numconvert.h>
 #include <igris/dprint.h>
 extern "C" { char *itoa(int, char *, unsigned short); char *utoa(unsigned, char *, unsigned short); char *ltoa(long, char *, unsigned short); char *ultoa(unsigned long, char *, unsigned short); }
@@ -12,11 +13,47 @@ static int g_nest = 0;
 static void inner_prints() { debug_printdec_uint64(18446744073709551557ULL); debug_printhex_uint32(0x89abcdefu); debug_printdec_signed_int(-7654321); debug_printbin_uint8(0xA5); }
 extern "C" void debug_putchar(char c) { if (g_nest == 2) { dbg_in.push_back((unsigned char)c); return; } dbg.push_back((unsigned char)c); if (g_nest == 1) { g_nest = 2; dbg_in.clear(); inner_prints(); g_nest = 1; } }
 extern "C" void debug_write(const char *c, int n) { for (int i = 0; i < n; ++i) debug_putchar(c[i]); }
+// one rendering call selected by an index (the single-stepped region then holds little besides the call)
+static const char *TOA[] = {"i8", "i16", "i32", "i64", "u8", "u16", "u32", "u64", "itoa", "utoa", "ltoa", "ultoa"};
+static int toa_index(const std::string &fn) { for (unsigned i = 0; i < sizeof TOA / sizeof *TOA; ++i) if (fn == TOA[i]) return (int)i; return -1; }
+static char *call_toa(int fi, unsigned long long v, char *buf, int base) {
+    switch (fi) { case 0: return igris_i8toa((int8_t)v, buf, base); case 1: return igris_i16toa((int16_t)v, buf, base); case 2: return igris_i32toa((int32_t)v, buf, base); case 3: return igris_i64toa((int64_t)v, buf, base);
+        case 4: return igris_u8toa((uint8_t)v, buf, base); case 5: return igris_u16toa((uint16_t)v, buf, base); case 6: return igris_u32toa((uint32_t)v, buf, base); case 7: return igris_u64toa((uint64_t)v, buf, base);
+        case 8: return itoa((int)v, buf, base); case 9: return utoa((unsigned)v, buf, base); case 10: return ltoa((long)v, buf, base); default: return ultoa((unsigned long)v, buf, base); } }
+struct ToaIn { int fi; unsigned long long v; char *buf; int base; char *r; bool ran; };
+static void toa_inner(void *p) { ToaIn *x = (ToaIn *)p; x->r = call_toa(x->fi, x->v, x->buf, x->base); x->ran = true; }
 static const int W = 96, G = 8;
 int main(int argc, char **argv) {
     return run(argc, argv, [&](const std::vector<std::string> &t) {
         if (t[0] == "R") { Ev e("Reset"); e.end(); return; }
         const std::string &op = t[0]; const std::string &fn = t[1];
+        if (op == "ToaI") {   // ToaI fn valLE base fn2 val2LE base2 points : the rendering fn(val, base) interrupted at an instruction boundary by a complete
+            // rendering fn2(val2, base2) into another buffer (an interrupt handler that formats a number); about `points` evenly spread boundaries
+            // ("k<n>": only boundary n).  Both renderings are logged as ordinary Toa events.
+            const std::string &fn2 = t[4]; auto vb = blist(t[2]), vb2 = blist(t[5]); int base = num(t[3]), base2 = num(t[6]);
+            unsigned long long v = 0, v2 = 0; for (size_t i = 0; i < vb.size(); ++i) v |= (unsigned long long)vb[i] << (8 * i); for (size_t i = 0; i < vb2.size(); ++i) v2 |= (unsigned long long)vb2[i] << (8 * i);
+            int fi = toa_index(fn), fi2 = toa_index(fn2); if (fi < 0 || fi2 < 0) { fprintf(stderr, "bad ToaI fn\n"); exit(3); }
+            unsigned char *blk = (unsigned char *)malloc(W + 2 * G), *blk2 = (unsigned char *)malloc(W + 2 * G); char *r = 0;
+            unsigned keep = g_op_timeout; if (keep) { g_op_timeout = 60; watchdog(true); g_op_timeout = keep; }
+            ToaIn in{fi2, v2, (char *)blk2 + G, base2, 0, false};
+            auto prep = [&] { memset(blk, 0xA5, W + 2 * G); memset(blk2, 0xA5, W + 2 * G); in.r = 0; in.ran = false; };
+            prep(); call_toa(fi, v, (char *)blk + G, base); toa_inner(&in);          // first use (lazy binding)
+            prep(); long N = sstep::run(0, [&] { r = call_toa(fi, v, (char *)blk + G, base); }, toa_inner, &in);
+            long points = t[7][0] == 'k' ? -atol(t[7].c_str() + 1) : num(t[7]); long step = points < 0 ? N + 1 : N <= points ? 1 : (N + points - 1) / points;
+            std::vector<unsigned char> pw, pw2; long pr = -2, pr2 = -2; long first = 0; bool have = false;
+            auto emit = [&] { std::string ln = "ToaI " + t[1] + " " + t[2] + " " + t[3] + " " + t[4] + " " + t[5] + " " + t[6] + " k" + std::to_string(first);
+                Ev e("Toa"); e.str("fn", fn.c_str()).bytes("val", vb.data(), vb.size()).i("base", base).bytes("win", pw.data(), pw.size()).i("retoff", pr).i("nest", first).i("steps", N).str("nestline", ln.c_str()); e.end();
+                Ev f("Toa"); f.str("fn", fn2.c_str()).bytes("val", vb2.data(), vb2.size()).i("base", base2).bytes("win", pw2.data(), pw2.size()).i("retoff", pr2).i("nest", first).str("role", "interrupting").str("nestline", ln.c_str()); f.end(); };
+            for (long k = points < 0 ? -points : 1; k <= N; k += step) {
+                prep(); r = 0; sstep::run(k, [&] { r = call_toa(fi, v, (char *)blk + G, base); }, toa_inner, &in);
+                if (!in.ran) break;
+                std::vector<unsigned char> w(blk, blk + W + 2 * G), w2(blk2, blk2 + W + 2 * G); long ro = r ? (long)(r - ((char *)blk + G)) : -1, ro2 = in.r ? (long)(in.r - ((char *)blk2 + G)) : -1;
+                if (have && w == pw && w2 == pw2 && ro == pr && ro2 == pr2) continue;
+                if (have) emit();
+                have = true; first = k; pw = w; pw2 = w2; pr = ro; pr2 = ro2;
+            }
+            if (have) emit();
+            free(blk); free(blk2); return; }
         if (op == "Toa") {   // Toa fn valLE base
             auto vb = blist(t[2]); int base = num(t[3]); unsigned long long v = 0; for (size_t i = 0; i < vb.size(); ++i) v |= (unsigned long long)vb[i] << (8 * i);
             unsigned char *blk = (unsigned char *)malloc(W + 2 * G); memset(blk, 0xA5, W + 2 * G); char *buf = (char *)blk + G; char *r = 0;
